@@ -185,7 +185,7 @@ package expr
 //@   ensures lerr == nil && len(l) == 1 && fromOk(l[0]) && isInteger(a) && !inInt32(0 - intOf(a)) ==> err == nil && len(res) == 0
 //@   ensures lerr == nil && len(l) == 1 && fromOk(l[0]) && isDecimalV(a) ==> err == nil && len(res) == 1 && res[0] == mkDec(0.0 - decOf(a))
 //@   ensures lerr == nil && len(l) == 1 && !fromOk(l[0]) ==> is(err, ErrInvalidType)
-//@   assigns nothing
+//@   assigns ctx.LastResult, ctx.BeforeLastResult
 //
 // C10/C07: the indexer c[n] is positional: the item at n, or empty outside [0, count)
 //@ func (e *IndexExpression) Evaluate(ctx, input) (res, err)
@@ -201,7 +201,7 @@ package expr
 //@   ensures ixerr == nil && len(ix) == 1 && fromOk(ix[0]) && isInteger(v) && 0 <= intOf(v) && intOf(v) < len(input) ==> err == nil && len(res) == 1 && res[0] == input[intOf(v)]
 //@   ensures ixerr == nil && len(ix) == 1 && fromOk(ix[0]) && isInteger(v) && (intOf(v) < 0 || intOf(v) >= len(input)) ==> err == nil && len(res) == 0
 //@   ensures ixerr == nil && len(ix) == 1 && fromOk(ix[0]) && !isInteger(v) ==> is(err, ErrInvalidType)
-//@   assigns nothing
+//@   assigns ctx.LastResult, ctx.BeforeLastResult
 //
 // ---- C05: = and != on collections; < <= > >= on single items ---------------------------------
 // Two collections are equal iff same length and every pair of items equal; an empty operand,
@@ -263,7 +263,7 @@ package expr
 //@   ensures lerr == nil && len(l) > 1 ==> is(err, ErrNotSingleton)
 //@   ensures lerr == nil && len(l) == 1 && !typeOfOk(l[0]) ==> err != nil
 //@   ensures lerr == nil && len(l) == 1 && typeOfOk(l[0]) ==> err == nil && collTV(res) == ite(isaS(typeOfS(l[0]), e.Type), TV_T, TV_F)
-//@   assigns nothing
+//@   assigns ctx.LastResult, ctx.BeforeLastResult
 //
 // `x as T`: x itself (for a choice element, its chosen value) when `x is T`, empty otherwise
 //@ func (e *AsExpression) Evaluate(ctx, input) (res, err)
@@ -281,7 +281,7 @@ package expr
 //@   ensures lerr == nil && len(l) == 1 && typeOfOk(l[0]) && isT && !implements(l[0], fhir.Base) ==> err == nil && len(res) == 1 && res[0] == l[0]
 //@   ensures lerr == nil && len(l) == 1 && typeOfOk(l[0]) && isT && implements(l[0], fhir.Base) && choiceOfS(l[0]) == nil ==> err == nil && len(res) == 1 && res[0] == l[0]
 //@   ensures lerr == nil && len(l) == 1 && typeOfOk(l[0]) && isT && implements(l[0], fhir.Base) && choiceOfS(l[0]) != nil ==> err == nil && len(res) == 1 && res[0] == choiceOfS(l[0])
-//@   assigns nothing
+//@   assigns ctx.LastResult, ctx.BeforeLastResult
 //
 // ---- C07: `&` alone treats an empty operand as the empty string ---------------------------------
 //@ func (e *ConcatExpression) Evaluate(ctx, input) (res, err)
